@@ -117,7 +117,9 @@ def case_add_field(draw):
         new_name = 'new_' + new_name
     opts = draw(st.sampled_from([{}, {'title': 'T'}, {'format': 'default'}]))
     return {'op': 'add_field', 'pkg': pkg, 'targets': targets, 'sel': sel,
-            'name': new_name, 'type': t, 'kind': kind, 'default': default, 'options': opts}
+            'name': new_name, 'type': t, 'kind': kind, 'default': default, 'options': opts,
+            # a second field-level step restricted to the FIRST target only: the other targets keep the new field as it is
+            'then': draw(st.sampled_from([None, None, 'rename', 'delete']))}
 
 
 NUM_OPS = ['sum', 'avg', 'min', 'max', 'multiply']
@@ -195,7 +197,8 @@ def case_computed(draw):
                     if all(row[s] is None for s in spec['source']):
                         row[spec['source'][0]] = 1
     return {'op': 'computed', 'pkg': pkg, 'targets': targets, 'sel': sel, 'specs': specs,
-            'use_kw': len(specs) == 1 and draw(st.booleans())}
+            'use_kw': len(specs) == 1 and draw(st.booleans()),
+            'then': draw(st.sampled_from([None, None, 'rename', 'delete']))}
 
 
 FIND_POOL = [('a', 'b'), ('.', '-'), (r'\d+', 'N'), ('^x', 'y'), (r'(\w)(\w)', r'\2\1'), ('é', 'e'), ('"', "'"),
@@ -396,6 +399,29 @@ def build_step(case):
     raise AssertionError(op)
 
 
+def then_field(case):
+    if case['op'] == 'add_field':
+        return case['name']
+    t = case['specs'][0]['target']
+    return t if isinstance(t, str) else t['name']
+
+
+def then_step(case):
+    f = then_field(case)
+    first = [case['targets'][0]]
+    if case['then'] == 'rename':
+        return dataflows.rename_fields({f: 'renamed_new'}, resources=first, regex=False)
+    return dataflows.delete_fields([f], resources=first, regex=False)
+
+
+def then_model(case, fields, rows):
+    f = then_field(case)
+    if case['then'] == 'rename':
+        return ['renamed_new' if n == f else n for n in fields], \
+            [{('renamed_new' if k == f else k): v for k, v in r.items()} for r in rows]
+    return [n for n in fields if n != f], [{k: v for k, v in r.items() if k != f} for r in rows]
+
+
 def rows_equal(got, exp):
     if len(got) != len(exp):
         return False
@@ -422,10 +448,16 @@ def check(case, ctx):
         if r['name'] in case['targets']:
             try:
                 expected[r['name']] = model(case, r)
+                if case.get('then') and r['name'] == case['targets'][0]:
+                    expected[r['name']] = then_model(case, *expected[r['name']])
             except Reject as e:
                 reject = str(e)
+    steps = [build_step(case)]
+    if case.get('then'):
+        steps.append(then_step(case))
+        classes.append('then:' + case['then'] + ('-with-second-target' if len(case['targets']) > 1 else ''))
     try:
-        out_desc, out_rows = run_steps([build_step(case)], desc, tables)
+        out_desc, out_rows = run_steps(steps, desc, tables)
     except Exception as e:
         rc = root_cause(e)
         if reject is not None and isinstance(rc, AssertionError):
@@ -467,7 +499,7 @@ def check(case, ctx):
             for n in exp_fields:
                 if n in types_in and types_out[n] != types_in[n]:
                     raise Violation('%s:field-type-changed' % op, {'field': n})
-        if op == 'add_field' and types_out[case['name']] != case['type']:
+        if op == 'add_field' and case['name'] in types_out and types_out[case['name']] != case['type']:
             raise Violation('add_field:declared-type-lost', {'got': types_out[case['name']]})
         if op == 'computed':
             # schema and rows in lockstep also means: the declared type of a computed field accepts its values
